@@ -6,6 +6,9 @@ import (
 	"fmt"
 	"io"
 	"log/slog"
+	"net"
+	"net/http"
+	"net/http/httptest"
 	"os"
 	"runtime"
 	"strings"
@@ -483,5 +486,84 @@ func TestC13WebSocketSendTimeout(t *testing.T) {
 			}
 			col.Case(true, hx.JSON(desc), func() any { return desc })
 		}
+	})
+}
+
+// TestC13WebSocketCancel: the request context is cancelled while the write loop,
+// the handler and the read loop are all blocked (peer keeps sending, never reads):
+// Relay.ServeHTTP must return promptly.
+func TestC13WebSocketCancel(t *testing.T) {
+	col := ev.For("C13").SetRule(c13Rule)
+	rapid.Check(t, func(t *rapid.T) {
+		opt := openOptions()
+		opt.SendTimeout = rapid.SampledFrom([]time.Duration{10 * time.Second, 30 * time.Second}).Draw(t, "send_timeout")
+		opt.PingDuration = rapid.SampledFrom([]time.Duration{0, time.Hour}).Draw(t, "ping")
+		peerSends := rapid.Bool().Draw(t, "peer_keeps_sending")
+		desc := map[string]any{"send_timeout": opt.SendTimeout.String(), "ping": opt.PingDuration.String(), "peer_keeps_sending": peerSends, "ending": "request context cancelled while every loop is blocked"}
+		attempt := func() (time.Duration, bool) {
+			f := &flooder{started: make(chan struct{}), ended: make(chan time.Time, 1)}
+			relay := mocrelay.NewRelay(f, opt)
+			returned := make(chan time.Time, 1)
+			baseCtx, cancelBase := context.WithCancel(context.Background())
+			defer cancelBase()
+			srv := httptest.NewUnstartedServer(http.HandlerFunc(func(w http.ResponseWriter, r *http.Request) {
+				relay.ServeHTTP(w, r)
+				returned <- time.Now()
+			}))
+			srv.Config.BaseContext = func(net.Listener) context.Context { return baseCtx }
+			srv.Start()
+			defer func() {
+				srv.CloseClientConnections()
+				srv.Close()
+			}()
+			c, err := dial("ws" + strings.TrimPrefix(srv.URL, "http"))
+			if err != nil {
+				t.Fatalf("dial: %v", err)
+			}
+			defer c.CloseNow()
+			if err := c.Write(context.Background(), websocket.MessageText, []byte(`["CLOSE","go"]`)); err != nil {
+				t.Fatalf("write: %v", err)
+			}
+			<-f.started
+			stopSend := make(chan struct{})
+			if peerSends {
+				go func() {
+					for i := 0; ; i++ {
+						select {
+						case <-stopSend:
+							return
+						default:
+						}
+						wctx, wcancel := context.WithTimeout(context.Background(), 200*time.Millisecond)
+						c.Write(wctx, websocket.MessageText, []byte(`["CLOSE","more"]`))
+						wcancel()
+						time.Sleep(5 * time.Millisecond)
+					}
+				}()
+			}
+			defer close(stopSend)
+			time.Sleep(300 * time.Millisecond) // buffers fill; the write loop is blocked in conn.Write
+			t0 := time.Now()
+			cancelBase()
+			select {
+			case at := <-returned:
+				return at.Sub(t0), true
+			case <-time.After(8 * time.Second):
+				return 8 * time.Second, false
+			}
+		}
+		d, ok := attempt()
+		if !ok || d > 3*time.Second {
+			// a loaded machine must not raise a false alarm: once more
+			d2, ok2 := attempt()
+			if !ok2 || d2 > 3*time.Second {
+				hx.Fail(t, ev.Failure{Property: "C13", Signature: "websocket-cancel-slow", Clause: "whenever a session's context is cancelled - whether or not the peer is still reading - serving returns promptly (WebSocket session)",
+					Case: desc, Observed: fmt.Sprintf("Relay.ServeHTTP returned %v / %v after the cancellation (two attempts)", d, d2), Expected: "well under 3 s (normal: milliseconds)"})
+			}
+			d = d2
+		}
+		col.Label("websocket-cancel")
+		col.Add("ws_cancel_latency_ms_sum", d.Milliseconds())
+		col.Case(true, hx.JSON(desc), func() any { return desc })
 	})
 }
